@@ -325,10 +325,30 @@ def check_case_folding(ctx, P, utils):
             if sets and rets and len({s_[0] for s_ in sets}) == 1:
                 arms.append((sets, unparse(rets[0].value)))
     arms = [a for a in arms if any('qty' in a[1] or '*' in a[1] or 'int' in a[1] for _ in [0])]
+    folded_gd = None
     if len(arms) < 3:
-        raise AnalysisError('get_distance: unit chain not recognised (%d arms)' % len(arms))
+        # the units are not an if / elif chain (lookup tables ...): the unit of a suffix is what the folded get_distance makes of one
+        # unit of it - get_distance('1' + suffix) - a decision table over the finite set of suffixes the pattern admits
+        from .. import fold as _fold
+        try:
+            uenv_, ufolder_ = utils.repo.folded(utils.rel)
+            gd_fc_ = uenv_.get('get_distance')
+        except Exception:
+            gd_fc_ = None
+        if not isinstance(gd_fc_, _fold.FuncConst):
+            raise AnalysisError('get_distance: unit chain not recognised (%d arms) and the function does not fold' % len(arms))
+
+        def folded_gd(code):
+            try:
+                return 'one unit = %r m' % (_fold.Folder(importer=ufolder_.importer).call(gd_fc_, [code], {}),)
+            except _fold._Raise as ex_:
+                return 'raises %s' % ex_.name
+            except Exception as e_:
+                return 'raises %s' % type(e_).__name__
 
     def arm_of(sfx):
+        if folded_gd is not None:
+            return folded_gd('1' + sfx)
         if sfx == '':
             return 'metres (no suffix)'
         for sets, ret in arms:
